@@ -1,2 +1,7 @@
 import DeepModel.Driver.TraceIO
-def main : IO Unit := Proto.serve TraceIO.handle
+import DeepModel.Driver.LocIO
+def handleC03 (j : Lean.Json) : Except String Lean.Json :=
+  match Proto.getStr j "op" with
+  | .ok "loc" => LocIO.handle j
+  | _ => TraceIO.handle j
+def main : IO Unit := Proto.serve handleC03
